@@ -47,8 +47,10 @@ def scenarios(tier):
     out = []
     for mode in ('local', 'remote'):
         fa, fo = c05.flags_for(mode)
-        fa = fa + ['--timeout', '1']
+        fa_idle = fa + ['--timeout', '1']
         for (name, role, script, origins, dns, net) in c05.adversaries(tier):
+            if script[-1][0] not in ('close', 'wait_eof'):
+                continue        # the client stays connected: that history is not over
             for reps in (1, 3):
                 if reps == 3 and tier == 'quick' and name.startswith('fwd-trunc') and name != 'fwd-trunc-20':
                     continue
@@ -73,7 +75,7 @@ def scenarios(tier):
               ('10.0.0.8', 80): lambda: HttpOrigin([[c05.R_UP]])}
         for name, script in idle:
             out.append(Scenario(
-                '%s/%s' % (mode, name), fa, flags_opts=fo, mode=mode, clients=[dict(script=script)],
+                '%s/%s' % (mode, name), fa_idle, flags_opts=fo, mode=mode, clients=[dict(script=script)],
                 origins=og, dns={'adv.test': '10.0.0.9', 'up1.test': '10.0.0.8'}, kinds='', horizon=900,
                 min_time=4.0,
                 features={'mode': mode, 'role': 'idle', 'history': name, 'repetitions': 1}, setup=_setup))
@@ -81,12 +83,13 @@ def scenarios(tier):
     for mode in ('local', 'remote'):
         fa, fo = c05.flags_for(mode)
         for (name, role, script, origins, dns, net) in c05.adversaries(tier):
-            if role not in ('forward', 'tunnel') or (tier == 'quick' and name.startswith('fwd-trunc')):
+            if role not in ('forward', 'tunnel') or (tier == 'quick' and name.startswith('fwd-trunc')) or \
+                    script[-1][0] not in ('close', 'wait_eof'):
                 continue
             for reps in (1, 3):
                 clients = [dict(script=script, start_turn=(0 if i == 0 else 'idle')) for i in range(reps)]
                 out.append(Scenario(
-                    '%s/pool/%s/x%d' % (mode, name, reps), fa + ['--timeout', '1', '--enable-conn-pool'], flags_opts=fo,
+                    '%s/pool/%s/x%d' % (mode, name, reps), fa + ['--enable-conn-pool'], flags_opts=fo,
                     mode=mode, clients=clients, origins=origins, dns=dns, net=net,
                     kinds='F' if reps == 1 else '', horizon=900,
                     features={'mode': mode, 'role': role, 'history': name, 'repetitions': reps, 'conn_pool': True},
